@@ -802,6 +802,9 @@ func (rn *Runner) Run() {
 	if cfg.Redial { // the first dial of a redial scenario is fault-free: the script applies from the second connection on
 		scfg.FaultsFromConn = 2
 	}
+	if cfg.Variant == "mute" {
+		rn.stall = true // short client timeout and the stall bound: the second dial must not wait for the old connection
+	}
 	if cfg.Variant == "latereply" && rn.stall { // the silent server answers after all - one and a half timeouts later
 		scfg.LateReply = StallTimeout * 3 / 2 // after the client gave up, before a renewed timeout would expire
 	}
@@ -1057,6 +1060,9 @@ func (rn *Runner) Run() {
 		}
 		c.SetTLSPolicy(policy)
 		r.Emit("setpolicy", "policy", cfg.Policy)
+		if cfg.Variant == "mute" { // the server keeps the idle first connection open but never answers on it again
+			rn.srv.Mute(1)
+		}
 		if cfg.Variant == "gone" { // the server drops the idle first connection before the Client dials again
 			rn.srv.Kill()
 			time.Sleep(5 * time.Millisecond)
